@@ -13,6 +13,9 @@
 //! overwrite f=<nat> k=<K> <rows>             WriteMode::Overwrite through the latest handle
 //! delete    lt <int> | ge <int> | in <int,…> | all      Dataset::delete("c0 < x" | "c0 >= x" | "c0 IN (…)" | "true")
 //! restore   <v>                              checkout_version(v) then Dataset::restore()
+//! restore@<h> <v>                            a Restore transaction built on a stale handle: checkout_version(h), then
+//!                                            CommitBuilder::new(handle@h).execute(Transaction::new(h, Restore{version: v}))
+//!                                            — the writer read version h, other writers committed h+1..latest meanwhile
 //! ```
 //!
 //! Output: `ok v=<version> k=<K> nrid=<manifest.next_row_id> mfid=<manifest.max_fragment_id|none>
@@ -31,6 +34,8 @@ use std::collections::BTreeMap;
 use std::sync::Arc;
 
 use hcommon::*;
+use lance::dataset::transaction::{Operation, Transaction};
+use lance::dataset::CommitBuilder;
 use lance::session::Session;
 use lance::Dataset;
 
@@ -87,6 +92,8 @@ enum Op {
     Overwrite { f: usize, k: usize, rows: Vec<Row> },
     Delete(Pred),
     Restore(u64),
+    /// (handle / read version, target version)
+    RestoreAt(u64, u64),
 }
 
 fn show_op(op: &Op) -> String {
@@ -96,6 +103,7 @@ fn show_op(op: &Op) -> String {
         Op::Overwrite { f, k, rows } => format!("overwrite f={f} k={k} {}", show_rows(rows)),
         Op::Delete(p) => format!("delete {}", p.show()),
         Op::Restore(v) => format!("restore {v}"),
+        Op::RestoreAt(h, v) => format!("restore@{h} {v}"),
     }
 }
 
@@ -166,6 +174,7 @@ fn parse_op(line: &str) -> Option<Op> {
             Some(Op::Delete(Pred::In(v?)))
         }
         ["restore", v] => Some(Op::Restore(parse_nat(v)?)),
+        [r, v] if r.starts_with("restore@") => Some(Op::RestoreAt(parse_nat(&r[8..])?, parse_nat(v)?)),
         _ => None,
     }
 }
@@ -287,7 +296,26 @@ impl Prop for C07 {
                 } else {
                     1 + rng.below(nver - 1)
                 };
-                Op::Restore(v)
+                if rng.chance(1, 2) {
+                    // a restore prepared on a handle that other writers have overtaken (mostly by one or two versions)
+                    let h = if malformed && rng.chance(1, 6) {
+                        *rng.pick(&[0, nver + 1])
+                    } else {
+                        match rng.below(8) {
+                            0 => nver,
+                            1..=5 => nver - 1,
+                            _ => 1 + rng.below(nver - 1),
+                        }
+                    };
+                    // make sure somebody wrote rows after the handle was opened: that is what the marks must cover
+                    if h < nver && !matches!(ops.last(), Some(Op::Append { .. } | Op::Overwrite { .. })) && ops.len() + 2 < 10 {
+                        ops.push(Op::Append { f: Self::gen_f(rng, false), rows: Self::gen_rows(rng, k) });
+                        nver += 1;
+                    }
+                    Op::RestoreAt(h, v)
+                } else {
+                    Op::Restore(v)
+                }
             } else {
                 match rng.below(20) {
                     0..=9 => {
@@ -359,6 +387,7 @@ impl Prop for C07 {
                 Op::Overwrite { .. } => "overwrite",
                 Op::Delete(_) => "delete",
                 Op::Restore(_) => "restore",
+                Op::RestoreAt(..) => "restore_at",
             };
             res.tags.push(format!("op:{opname}"));
             // fresh caches for the operation; keep the old handle alive until the new one is open
@@ -417,6 +446,12 @@ impl Prop for C07 {
                     let mut d = kit.block_on(cur.as_ref().unwrap().checkout_version(*v)).map_err(KitError::from)?;
                     kit.block_on(d.restore()).map_err(KitError::from)?;
                     Ok(d)
+                }
+                Op::RestoreAt(h, v) => {
+                    // the writer's handle is at version h; versions h+1..latest were committed by "other writers"
+                    let stale = kit.block_on(cur.as_ref().unwrap().checkout_version(*h)).map_err(KitError::from)?;
+                    let txn = Transaction::new(*h, Operation::Restore { version: *v }, None);
+                    kit.block_on(CommitBuilder::new(Arc::new(stale)).execute(txn)).map_err(KitError::from)
                 }
             }))
             .unwrap_or_else(|e| {
@@ -494,7 +529,7 @@ impl Prop for C07 {
                     Some(x)
                 }
                 Op::Delete(p) => Some(prev_flat.iter().filter(|r| !p.matches(r[0])).cloned().collect()),
-                Op::Restore(v) => flat.get(v).cloned(),
+                Op::Restore(v) | Op::RestoreAt(_, v) => flat.get(v).cloned(),
             };
             match &want_flat {
                 Some(w) if *w == cells_of(&rec) => {}
@@ -505,8 +540,11 @@ impl Prop for C07 {
                 None => fail(format!("{opname} succeeded on a version the history never had"), "restore_unknown_version"),
             }
             // (1) restore reproduces the old version exactly (schema, rows, row ids, fragments, deletions)
-            if let Op::Restore(v) = &op {
+            if let Op::Restore(v) | Op::RestoreAt(_, v) = &op {
                 n_restores += 1;
+                if let (Op::RestoreAt(h, _), Some(p)) = (&op, prev_latest) {
+                    res.tags.push(if *h < p { "restore_at:stale_handle".into() } else { "restore_at:latest_handle".to_string() });
+                }
                 if let Some(old) = recs.get(v) {
                     if old.k != rec.k || old.scan != rec.scan || old.frags != rec.frags {
                         fail(
@@ -576,7 +614,7 @@ impl Prop for C07 {
             if restored_earlier && matches!(op, Op::Append { .. } | Op::Overwrite { .. }) && !rec.scan.is_empty() {
                 wrote_after_restore = true;
             }
-            if matches!(op, Op::Restore(_)) {
+            if matches!(op, Op::Restore(_) | Op::RestoreAt(..)) {
                 restored_earlier = true;
             }
             res.tags.push(format!("nfrags:{}", rec.frags.len().min(6)));
@@ -590,7 +628,7 @@ impl Prop for C07 {
             ds = Some(d);
 
             // (5) old versions are immutable: after a restore re-read every earlier version
-            if matches!(op, Op::Restore(_)) {
+            if matches!(op, Op::Restore(_) | Op::RestoreAt(..)) {
                 self.check_old_versions(&uri, &recs, ln, &mut res);
             }
         }
@@ -607,9 +645,10 @@ impl Prop for C07 {
     }
 
     fn rule(&self) -> String {
-        "random histories of 3-9 ops on one dataset (memory://, 1 in 16 in a local directory): create (stable row ids on for 3 of 4 \
+        "random histories of 3-10 ops on one dataset (memory://, 1 in 16 in a local directory): create (stable row ids on for 3 of 4 \
          cases) then append / delete (c0 < x, c0 >= x, c0 IN, true) / overwrite (may change the number of columns) / restore to a \
-         random earlier version (sometimes the latest); most histories restore at least once and append afterwards; 0-13 rows per \
+         random earlier version (sometimes the latest), half of the restores as a Restore transaction built on a stale handle \
+         (read version mostly latest-1, an append committed in between) and committed through CommitBuilder; most histories restore at least once and append afterwards; 0-13 rows per \
          write, 1-2 Int64 columns, 8% NULL cells, max_rows_per_file 1-8 or 1000; 15% malformed (ops before create, create twice, \
          wrong width, f=0, restore of version 0 / a future version, broken syntax). Every step runs with fresh session caches. \
          Non-trivial = a restore followed by a write of at least one row, at least 3 versions."
